@@ -25,8 +25,7 @@ def raw3_body():
     plain = z3.Intersect(anyc, z3.Complement(z3.Union(q, bs, nul)))
     esc = z3.Concat(bs, z3.Intersect(anyc, z3.Complement(nul)))
     A = z3.Union(plain, esc)
-    # a body ending in exactly two quotes is also fine: r"""x""""" is the literal x followed by an adjacent empty literal
-    return z3.Concat(z3.Star(z3.Union(A, z3.Concat(q, A), z3.Concat(q, q, A))), z3.Option(z3.Concat(q, q)))
+    return z3.Star(z3.Union(A, z3.Concat(q, A), z3.Concat(q, q, A)))
 
 
 def raw3_scan(body):
@@ -49,16 +48,19 @@ def raw3_scan(body):
         else:
             run = 0
         i += 1
-    return run in (0, 2)
+    return run == 0
 
 
 def header_is_one_string(text):
-    """ground truth: does `text` (the header) parse as a module whose only statement is one string expression?"""
+    """ground truth: `text` = r\"\"\" body \"\"\" newline parses as a module whose only statement is the string `body` itself
+    (CPython also accepts e.g. r\"\"\"x\"\"\"\"\" — literal x plus an adjacent empty literal — but that is not the echoed text any more)"""
+    if not (text.startswith('r"""') and text.endswith('"""\n')):
+        return False
     try:
         t = ast.parse(text + "pass\n")
     except (SyntaxError, ValueError):
         return False
-    return len(t.body) == 2 and isinstance(t.body[0], ast.Expr) and isinstance(t.body[0].value, ast.Constant) and isinstance(t.body[0].value.value, str)
+    return len(t.body) == 2 and isinstance(t.body[0], ast.Expr) and isinstance(t.body[0].value, ast.Constant) and t.body[0].value.value == text[4:-4]
 
 
 def replay_header(case):
@@ -172,13 +174,15 @@ def kernel_header(tier, seed, params):
     res["queries"].append({"name": "exists argv, clock . header not in r\"\"\" RAW3 \"\"\"\\n", "result": r, "time_s": dt, "engine": "z3 " + z3.get_version_string()})
     tw = z3.Solver()
     tw.set("timeout", 30000)
-    tw.add(z3.InRe(clock, ctime_re), z3.Length(argv[0]) > 1, z3.Length(argv[2]) > 0)
+    # reachability witness with concrete argv (a ground query: it must be sat, and quickly)
+    tw.add(z3.InRe(clock, ctime_re), argv[0] == z3.StringVal("prog"), argv[1] == z3.StringVal("-m"), argv[2] == z3.StringVal("a b"),
+           clock == z3.StringVal("Sun Sep 27 17:31:44 2026"))
     for a in argv:
         tw.add(z3.InRe(a, nonul))
     for name, c in T.side:
         tw.add(c)
     for y, src in getattr(T, "replaced_vars", []):
-        tw.add(z3.InRe(y, nonul), z3.Length(y) > 3)
+        tw.add(y == z3.StringVal("prog -m a b"))
     if structural:
         tw.add(z3.InRe(z3.Concat(*mid), L))      # reachability: some non-trivial argv does satisfy the property
     twr = str(tw.check())
